@@ -209,9 +209,14 @@ def gen_random(tier, rng):
     for d in (1, 2, 3, 12, 13, 40, 200):
         for reps in ((1,) * (d + 1), (2,) * (d + 1), tuple(rng.randrange(3) for _ in range(d + 1))):
             lines.append(tree_case(None, chain(d, reps, rng), rng, with_rg=True))
-    deep = [2000] if tier == "quick" else [2000, 9998]
-    for d in deep:       # CARQUET_MAX_SCHEMA_ELEMENTS is 10000: root + 9998 groups + leaf
+    deep = [2000] if tier == "quick" else [2000, 4000]
+    for d in deep:
         lines.append(tree_case(None, chain(d, tuple(rng.choice((1, 2)) for _ in range(d + 1)), rng), rng, with_rg=False))
+    # CARQUET_MAX_SCHEMA_ELEMENTS is 10000: root + 9998 groups + leaf.  The extracted specification is too slow at this
+    # depth (it recomputes subtree sizes), so this one is compared with the model only.
+    li = tree_case(None, chain(9998, tuple(rng.choice((0, 1, 2)) for _ in range(9999)), rng), rng, with_rg=False).split()
+    li[-1] = "-"
+    lines.append(" ".join(li))
     wide = 3000 if tier == "quick" else 9999
     lines.append(tree_case(None, [("L", rng.randrange(3), i + 1, rng.randrange(8), 0, None) for i in range(wide)], rng, with_rg=False))
     return lines
@@ -385,7 +390,10 @@ def run_cases(rep, drv, run, lines, what, dist):
     impl, p1 = run_sharded(drv, lines)
     model, p2 = run_sharded(run, lines)
     for pr in p1:
-        rep.violation("%s: implementation driver died (rc=%s) %s" % (what, pr[1], " ".join(pr[2][-700:].split())), {"case": pr[3]})
+        err = pr[2]
+        k = max(err.find("ERROR: AddressSanitizer"), err.find("runtime error"))
+        err = err[k - 40 if k > 40 else 0:][:700] if k >= 0 else err[-700:]
+        rep.violation("%s: implementation driver died (rc=%s) %s" % (what, pr[1], " ".join(err.split())), {"case": pr[3]})
     for pr in p2:
         rep.tie_broken("%s: model runner died (rc=%s): %s" % (what, pr[1], pr[2][-300:]), pr[3])
     nv = 0
@@ -415,7 +423,7 @@ def run(tier):
     maxn = 6 if tier == "quick" else 7
     rep.cov["rule"] = ("every ordered forest with <= %d nodes below the root x every labelling by {REQUIRED, OPTIONAL, REPEATED} "
                        "(random physical/logical types, random root repetition); random forests to 200 nodes / depth 12 with duplicate names; "
-                       "chains to depth 9998 and flat schemas to 9999 columns; arbitrary element lists with child counts in "
+                       "chains to depth 2000/4000 against the specification and to depth 9998 against the model, flat schemas to 9999 columns; arbitrary element lists with child counts in "
                        "{0, small, negative, > remaining, INT32_MAX}; builder sequences of 0..300 calls; distinct by full case text" % maxn)
     try:
         drv = build_driver("h_schema")
